@@ -209,8 +209,21 @@ func Concrete(x, lo, hi int) int { return x }
 // Frozen declares that nothing reachable from roots may be written from now on.
 func Frozen(label string, roots ...any) {}
 
+// Preempt is an explicit point at which any other runnable goroutine may be
+// scheduled (a decision of the explorer; natively a yield).
+func Preempt() { runtime.Gosched() }
+
 // Yield is a scheduling point.
 func Yield() { runtime.Gosched() }
+
+// Baseline declares the goroutines alive now as not belonging to the unit
+// under test (harness infrastructure such as a loopback server).
+func Baseline() {
+	if cur != nil {
+		time.Sleep(5 * time.Millisecond)
+		cur.base = runtime.NumGoroutine()
+	}
+}
 
 // Quiesce lets every other goroutine run until none can make progress and
 // returns how many goroutines started since the harness began are still alive.
